@@ -2,7 +2,7 @@ SPEC = {
     "id": "C12",
     "props_module": "NDB.Props.C12",
     "corr_modules": ["NDB.Corr.C12"],
-    "theorems": ["C12_merge_stmt_idempotent", "C12_merge_on_items", "C12_merge_rel_refuted", "C12_chain_set_remove", "C12_merge_idempotent", "C12_merge_nan_refuted", "C12_set_remove_algebra", "C12_create_frame", "C12_delete"],
+    "theorems": ["C12_merge_stmt_idempotent", "C12_merge_on_items", "C12_merge_rel_refuted", "C12_merge_rel_direction", "C12_chain_set_remove", "C12_merge_idempotent", "C12_merge_nan_refuted", "C12_set_remove_algebra", "C12_create_frame", "C12_delete"],
     "allowed_axioms": [],
     "harness_pkg": "hx_update",
     "harness_bin": "c12",
@@ -20,7 +20,7 @@ SPEC = {
     ],
     "assumptions": [
         "statements: one update clause, or a chain of two or three SET / REMOVE clauses (node properties, maps, labels to add), with a MATCH / WITH / UNWIND prefix and parameters, executed through PreparedQuery::execute_write or execute_mixed (the C API's entry point), chosen at random per statement, one transaction per statement; in a chain every node occurs in one row; REMOVE of labels inside a chain and DELETE ... SET chains are outside the model (a fixed probe records K-C12-setafterdelete)",
-        "MERGE: node patterns (labels + property map, any number of UNWIND rows) and relationship patterns between two bound nodes (any number of rows on one key; the executor's overlay of created relationships is modelled); ON CREATE / ON MATCH SET on keys disjoint from the pattern keys",
+        "MERGE: node patterns (labels + property map, any number of UNWIND rows) and relationship patterns between two bound nodes, written ->, <- or undirected, with the existing relationship in either stored orientation (any number of rows on one key; the executor's overlay of created relationships is modelled); ON CREATE / ON MATCH SET on keys disjoint from the pattern keys",
         "property values null/bool/int/float/string; a relationship key deleted earlier in the history is not created again (K-C06-eprops, a storage finding, would resurrect its properties)",
         "counters: the single u32 returned by execute_write (created / deleted entities, properties set or removed, label items), as the code counts them",
     ],
